@@ -51,6 +51,18 @@ func BackendsTier(thorough bool) []BackendSpec {
 	return bs
 }
 
+// ModesWithDeclined returns the backend's commit modes plus, for the in-repo mock, the async-commit and
+// one-phase-commit request modes: the mock implements neither and ignores the request flags, which
+// the client has to treat as "the store declined" and fall back to ordinary 2PC (TiKV may decline as
+// well). The fall-back paths are reachable in no other way.
+func ModesWithDeclined(bk BackendSpec) []txnh.Mode {
+	ms := append([]txnh.Mode{}, bk.Modes...)
+	if bk.Name == "mocktikv" {
+		ms = append(ms, txnh.Mode{OnePC: true}, txnh.Mode{Async: true})
+	}
+	return ms
+}
+
 // Backends returns the table of store backends.
 func Backends() []BackendSpec {
 	out := []BackendSpec{{
